@@ -68,6 +68,7 @@ typedef struct thrift_decoder {
     /* Field ID tracking for delta encoding */
     int16_t last_field_id[THRIFT_MAX_NESTING];
     int nesting_level;
+    int container_depth;  /* nesting of lists/sets/maps being skipped */
 
     /* Boolean field tracking */
     bool bool_pending;
